@@ -257,39 +257,7 @@ func ruleNoSort(c *Ctx) {
 			"fields are encoded, described and looked up in declaration order by their own index; sorting them or assuming sorted order ("+bad+") changes the bytes or drops fields of structs whose indexes are not ascending", nil)
 	}
 	c.Floor("T.nosort", 7)
-	// the walker finds a field by a linear scan comparing Index == index
-	for _, name := range []string{"readAsStruct", "readAsMapEntry"} {
-		fn := p.findFunc("plenccodec", "Descriptor", name)
-		if fn == nil {
-			continue
-		}
-		info := fn.Pkg.TypesInfo
-		ok := false
-		ast.Inspect(fn.Decl.Body, func(x ast.Node) bool {
-			rs, isR := x.(*ast.RangeStmt)
-			if !isR {
-				return true
-			}
-			if sel, isSel := rs.X.(*ast.SelectorExpr); !isSel || sel.Sel.Name != "Elements" {
-				return true
-			}
-			ast.Inspect(rs.Body, func(y ast.Node) bool {
-				be, isB := y.(*ast.BinaryExpr)
-				if isB && be.Op == token.EQL {
-					l, r := p.str(be.X), p.str(be.Y)
-					if (strings.HasSuffix(l, ".Index") && r == "index") || (strings.HasSuffix(r, ".Index") && l == "index") {
-						ok = true
-					}
-				}
-				return true
-			})
-			return true
-		})
-		_ = info
-		c.Oblige("T.walker-lookup", ok, fn.Decl.Pos(), fn.Name(), "element looked up by a linear scan on Index == index",
-			"descriptor elements are in declaration order, not index order: the walker must compare every element's Index with the index read from the data", nil)
-	}
-	c.Floor("T.walker-lookup", 2)
+	ruleWalkerLookup(c)
 }
 
 // ruleDescriptorBodyClosed: StructCodec.Descriptor does nothing but build the descriptor.
